@@ -1,7 +1,8 @@
 """C16 plug-in of run/reports.py: what the JUnit report files say after a run with --junit.
 
-project(env) -> {"files": [per feature of the program, in program order], "stray": [names of other files]}
-  one entry per feature:  {"f": feature index, "el": abstract id of the feature, "exists": a TESTS-<file stem>.xml is there,
+project(env) -> {"files": [per feature of the program, in program order], "stray": [names of other files], "ran": ran_objects}
+  one entry per feature:  {"f": feature index, "el": abstract id of the feature, "exists": a TESTS-<file stem>.xml is there (or,
+     failing that, another TESTS-*.xml whose <testsuite name> ends in this feature's name: "by" = filename / suite_name),
      "wellformed": the independent parser (xml.dom.minidom = expat) accepted it, "parse_error": its message,
      "root": tag of the document element, "suites": number of <testsuite> elements,
      "tests" / "failures" / "errors" / "skipped": the counter attributes of <testsuite> as ints (-1 = absent or no int),
@@ -112,6 +113,39 @@ def model_names(env):
     return out
 
 
+RECORDER = "run.reports_c17:ScenStatusRecorder"       # tiny registered formatter that keeps the objects given to Formatter.scenario()
+RECORDER_ARGS = ["-f", RECORDER, "-o", os.devnull]
+
+
+def ran_objects(env):
+    """final status / step statuses / hook_failed of the scenario OBJECTS THAT RAN (the ones the runner announced to the
+    formatters during the run, read now), per element; "" / [] / False where none was announced.  A walk over the model
+    after the run may hand out other objects (ScenarioOutline.scenarios can rebuild its rows)."""
+    n = len(env.flat["elems"])
+    out = {"recorded": False, "status": [""] * n, "steps": [[] for _ in range(n)], "hook_failed": [False] * n}
+    if RECORDER not in ((env.case or {}).get("extra_args") or []):
+        return out
+    from . import reports_c17
+    out["recorded"] = True
+    for sc in list(reports_c17.SEEN):     # a retried scenario is announced twice: the same object, the later reading wins
+        el = env.elid(sc)
+        if el and env.flat["elems"][el - 1]["kind"] == "scenario":
+            out["status"][el - 1] = sc.status.name
+            out["steps"][el - 1] = [st.status.name for st in sc.all_steps]
+            out["hook_failed"][el - 1] = bool(getattr(sc, "hook_failed", False))
+    return out
+
+
+def suite_name(path):
+    """name attribute of the <testsuite> of a report file ("" if it cannot be read)"""
+    try:
+        root = minidom.parse(path).documentElement
+        suites = [root] if root.tagName == "testsuite" else list(root.getElementsByTagName("testsuite"))
+        return suites[0].getAttribute("name") if suites else ""
+    except Exception:
+        return ""
+
+
 def read_report(path, flat, blocks, names=None):
     d = {"exists": os.path.exists(path), "wellformed": False, "parse_error": "", "root": "", "suites": 0,
          "tests": -1, "failures": -1, "errors": -1, "skipped": -1, "attrs": [], "cases": []}
@@ -173,10 +207,27 @@ def project(env):
     present = sorted(os.listdir(jdir)) if os.path.isdir(jdir) else []
     files, expected = [], set()
     names = model_names(env)
+    fnames = {}
+    fidx = {fn: i for i, (fn, _t) in enumerate(env.rendered.files)}
+    for f in env.feats or []:
+        fnames[fidx.get(os.path.basename(f.filename), -1)] = f.name
+    for fi, fid in enumerate(flat["features"]):
+        expected.add("TESTS-%s.xml" % os.path.splitext(env.rendered.files[fi][0])[0])
+    # a document that does not carry the usual file name still counts for the feature its <testsuite name="...F<i>"> names
+    stray = [n for n in present if n not in expected]
+    claimed = {}
+    for n in stray:
+        last = suite_name(os.path.join(jdir, n)).rsplit(".", 1)[-1]
+        for fi in range(len(flat["features"])):
+            if last and fnames.get(fi) == last and fi not in claimed:
+                claimed[fi] = n
+                break
     for fi, fid in enumerate(flat["features"]):
         name = "TESTS-%s.xml" % os.path.splitext(env.rendered.files[fi][0])[0]
-        expected.add(name)
+        by = "filename"
+        if not os.path.exists(os.path.join(jdir, name)) and fi in claimed:
+            name, by = claimed[fi], "suite_name"
         d = read_report(os.path.join(jdir, name), flat, blocks, names.get(fi))
-        d["f"], d["el"] = fi, fid
+        d["f"], d["el"], d["file"], d["by"] = fi, fid, name, by
         files.append(d)
-    return {"files": files, "stray": [n for n in present if n not in expected]}
+    return {"files": files, "stray": stray, "ran": ran_objects(env)}
